@@ -41,7 +41,14 @@ def gen(ch, cfg, prefix):
     cfg.max_len = (10, 6, 3, 8)[ch.draw(4)]
     items = g.items()
     sc.key = g.keyfn()
-    if sc.key is not None and ch.chance(1, 4):
+    if sc.key is not None and ch.chance(1, 6):
+        # keys that are equal when close together (not transitive) and only comparable among themselves; the items'
+        # own keys are spread out so that chains a~b~c with a!~c occur
+        sc.key.kind = "tol"
+        for n_, it in enumerate(items):
+            if type(it).__name__ == "Item":
+                it.key = it.key * 2 + (n_ % 2)
+    elif sc.key is not None and ch.chance(1, 4):
         sc.key.kind = "divnone"  # a key function for which None is a legitimate key
     elif sc.key is None and items and ch.chance(1, 4):
         for _ in range(ch.between(1, 3)):
@@ -54,7 +61,8 @@ def gen(ch, cfg, prefix):
     sc.src = g.src(items)
     ops = []
     for _ in range(ch.between(1, 15)):
-        ops.append((ch.weighted([2, 3]), ch.draw(3)))
+        # advance the groupby | advance group -i | close group -i | drain group -i through a library consumer (list)
+        ops.append((ch.weighted([6, 9, 1, 1]), ch.draw(3)))
     sc.ops = ops
     return sc
 
@@ -76,6 +84,13 @@ async def history_async(sc, world, results):
             else:
                 groups.append(grp)
                 results.append(("key", ident(key)))
+        elif op == 2:
+            # closing a group handle (the live one or a stale one) ends that group and nothing else
+            await groups[-1 - (i % len(groups))].aclose()
+            results.append(("closed", i % len(groups)))
+        elif op == 3:
+            rest = await L.list(groups[-1 - (i % len(groups))])
+            results.append(("drained", i % len(groups), tuple(ident(x) for x in rest)))
         else:
             grp = groups[-1 - (i % len(groups))]
             try:
@@ -92,6 +107,7 @@ def history_ref(sc, world, results):
     fn = make_ref_fn(world, sc.key) if sc.key is not None else None
     gb = itertools.groupby(src.obj, fn.obj) if fn is not None else itertools.groupby(src.obj)
     groups = []
+    closed = set()
     log = world.log
     for n, (op, i) in enumerate(sc.ops):
         log.append(("op", n))
@@ -103,8 +119,20 @@ def history_ref(sc, world, results):
             else:
                 groups.append(grp)
                 results.append(("key", ident(key)))
+        elif op == 2:
+            # itertools groups have no close; a closed group is one nobody asks for more: model it as such
+            closed.add(id(groups[-1 - (i % len(groups))]))
+            results.append(("closed", i % len(groups)))
+        elif op == 3:
+            grp = groups[-1 - (i % len(groups))]
+            rest = [] if id(grp) in closed else list(grp)
+            closed.add(id(grp))  # a consumer closes what it has drained
+            results.append(("drained", i % len(groups), tuple(ident(x) for x in rest)))
         else:
             grp = groups[-1 - (i % len(groups))]
+            if id(grp) in closed:
+                results.append(("stop", i % len(groups)))
+                continue
             try:
                 item = next(grp)
             except StopIteration:
